@@ -156,6 +156,12 @@ deriving Repr, DecidableEq
 
 /-! ## helpers -/
 
+/-- the detection class of the object keeps a previous reported value -/
+def Obj.incr (ob : Obj) : Bool := match ob.crit with | some c => c.incr | none => false
+
+/-- the detection class of the object reports periodically -/
+def Obj.pulse (ob : Obj) : Bool := match ob.crit with | some c => c.pulse | none => false
+
 def usPerSec : Nat := 1000000
 
 def findObj (s : State) (o : Nat) : Option Obj := s.objs.find? (fun ob => ob.id == o)
@@ -198,6 +204,24 @@ def nextPeriodic (now period : Nat) : Nat :=
 /-- `criteria_class(obj)` : a fresh, bound detection object -/
 def newDet (gen : Nat) : Det := { gen := gen, subs := [], triggered := false, prev := none, ptask := none }
 
+/-- `cov_detections.get(obj)`, else `criteria_type_map.get(type)(obj)`; with the next free identity -/
+def getDet (s : State) (ob : Obj) : Option (Det × Nat) :=
+  match ob.det with
+  | some d => some (d, s.nextGen)
+  | none =>
+    match ob.crit with
+    | none => none
+    | some _ => some (newDet s.nextGen, s.nextGen + 1)
+
+/-- `install_task(delta=lifetime)` unless the lifetime is zero: armed task and next installation number -/
+def armLifetime (s : State) (lifetime : Nat) : Option (Nat × Nat) × Nat :=
+  if lifetime ≠ 0 then (some (s.now + lifetime * usPerSec, s.seq), s.seq + 1) else (none, s.seq)
+
+/-- `Subscription.renew_subscription` (repaired) applied to the object `sid` inside the list -/
+def renewSubs (subs : List Sub) (sid lifetime : Nat) (confirmed : Bool) (due : Option (Nat × Nat)) :
+    List Sub :=
+  subs.map (fun c => if c.sid == sid then { c with lifetime := lifetime, confirmed := confirmed, due := due } else c)
+
 /-- do_SubscribeCOVRequest -/
 def subscribe (s : State) (addr pid o : Nat) (conf : Option Bool) (life : Option Nat) :
     State × List Out :=
@@ -210,17 +234,9 @@ def subscribe (s : State) (addr pid o : Nat) (conf : Option Bool) (life : Option
   | some ob =>
     if !ob.supportsCov then (s, [.error addr .covSubscriptionFailed]) else
     -- look for / make the detection algorithm
-    let made : Option (Det × Nat) :=
-      match ob.det with
-      | some d => some (d, s.nextGen)
-      | none =>
-        match ob.crit with
-        | none => none
-        | some _ => some (newDet s.nextGen, s.nextGen + 1)
-    match made with
+    match getDet s ob with
     | none => (s, [.error addr .covSubscriptionFailed])
     | some (d, nextGen) =>
-      let pulse := match ob.crit with | some c => c.pulse | none => false
       match findSub d.subs addr pid with
       | some cov =>
         if cancel then
@@ -230,11 +246,9 @@ def subscribe (s : State) (addr pid o : Nat) (conf : Option Bool) (life : Option
           ({ setObj s o (fun ob => { ob with det := det }) with nextGen := nextGen }, [.ack addr])
         else
           -- Subscription.renew_subscription (repaired)
-          let due := if lifetime ≠ 0 then some (s.now + lifetime * usPerSec, s.seq) else none
-          let seq := if lifetime ≠ 0 then s.seq + 1 else s.seq
-          let subs := d.subs.map (fun c =>
-            if c.sid == cov.sid then { c with lifetime := lifetime, confirmed := confirmed, due := due } else c)
-          ({ setObj s o (fun ob => { ob with det := some { d with subs := subs } }) with
+          let (due, seq) := armLifetime s lifetime
+          let d' := { d with subs := renewSubs d.subs cov.sid lifetime confirmed due }
+          ({ setObj s o (fun ob => { ob with det := some d' }) with
                nextGen := nextGen, seq := seq,
                deferred := s.deferred ++ [.initial o d.gen cov.sid] }, [.ack addr])
       | none =>
@@ -243,13 +257,12 @@ def subscribe (s : State) (addr pid o : Nat) (conf : Option Bool) (life : Option
           ({ setObj s o (fun ob => { ob with det := some d }) with nextGen := nextGen }, [.ack addr])
         else
           -- Subscription.__init__ arms the expiry task, then add_subscription
-          let due := if lifetime > 0 then some (s.now + lifetime * usPerSec, s.seq) else none
-          let seq := if lifetime > 0 then s.seq + 1 else s.seq
+          let (due, seq) := armLifetime s lifetime
           let cov : Sub := { addr := addr, pid := pid, confirmed := confirmed, lifetime := lifetime,
                              due := due, sid := s.nextSid }
           -- PulseConverterCriteria.add_subscription (re)installs the periodic task
           let (ptask, seq) :=
-            if pulse && ob.period ≠ 0 then (some (nextPeriodic s.now ob.period, seq), seq + 1)
+            if ob.pulse && ob.period ≠ 0 then (some (nextPeriodic s.now ob.period, seq), seq + 1)
             else (d.ptask, seq)
           let d' := { d with subs := d.subs ++ [cov], ptask := ptask }
           ({ setObj s o (fun ob => { ob with det := some d' }) with
@@ -258,59 +271,66 @@ def subscribe (s : State) (addr pid o : Nat) (conf : Option Bool) (life : Option
 
 /-! ## property writes and the monitors -/
 
-/-- `DetectionMonitor.property_change` once the new value is stored: `trig` is the
-    verdict of the filter (evaluated only when not yet triggered) -/
-def fireMonitor (s : State) (o : Nat) (d : Det) (trig : Bool) : State :=
-  if trig then
-    { setObj s o (fun ob => { ob with det := some { d with triggered := true } }) with
-        deferred := s.deferred ++ [.exec o d.gen] }
-  else setObj s o (fun ob => { ob with det := some d })
-
 /-- `COVIncrementCriteria.present_value_filter` -/
 def incrTrigger (p inc v : Int) : Bool := decide (v ≤ p - inc) || decide (v ≥ p + inc)
+
+/-- `DetectionMonitor.property_change` with the default filter `old != new`: nothing is
+    evaluated once the algorithm is triggered; returns the detection object afterwards and
+    whether `_execute` was deferred -/
+def plainChange (d : Det) (differs : Bool) : Det × Bool :=
+  if d.triggered then (d, false) else ({ d with triggered := differs }, differs)
+
+/-- the monitor of presentValue -/
+def pvChange (ob : Obj) (c : Crit) (d : Det) (v : Int) : Det × Bool :=
+  if !c.trackPv then (d, false)
+  else if d.triggered then (d, false)
+  else if c.incr then
+    -- first time around initialise to the old value
+    let p := d.prev.getD ob.pv
+    let trig := incrTrigger p ob.inc v
+    ({ d with prev := some p, triggered := trig }, trig)
+  else plainChange d (ob.pv != v)
+
+def flagsChange (ob : Obj) (c : Crit) (d : Det) (f : Nat) : Det × Bool :=
+  if !c.trackFlags then (d, false) else plainChange d (ob.flags != f)
+
+def incChange (ob : Obj) (c : Crit) (d : Det) (v : Int) : Det × Bool :=
+  if !c.trackInc then (d, false) else plainChange d (ob.inc != v)
+
+/-- `Property.WriteProperty`: store the value (`upd`), then call the monitors (`r`) -/
+def applyChange (s : State) (o : Nat) (upd : Obj → Obj) (r : Option (Det × Bool)) : State :=
+  match r with
+  | none => setObj s o upd
+  | some (d', enq) =>
+    { setObj s o (fun x => { upd x with det := some d' }) with
+        deferred := s.deferred ++ (if enq then [.exec o d'.gen] else []) }
 
 def writePv (s : State) (o : Nat) (v : Int) : State :=
   match findObj s o with
   | none => s
   | some ob =>
-    let old := ob.pv
-    let s1 := setObj s o (fun ob => { ob with pv := v })
-    match ob.det, ob.crit with
-    | some d, some c =>
-      if !c.trackPv then s1
-      else if d.triggered then s1
-      else if c.incr then
-        -- first time around initialise to the old value
-        let p := d.prev.getD old
-        fireMonitor s1 o { d with prev := some p } (incrTrigger p ob.inc v)
-      else fireMonitor s1 o d (old != v)
-    | _, _ => s1
+    applyChange s o (fun x => { x with pv := v })
+      (match ob.det, ob.crit with
+       | some d, some c => some (pvChange ob c d v)
+       | _, _ => none)
 
 def writeFlags (s : State) (o : Nat) (f : Nat) : State :=
   match findObj s o with
   | none => s
   | some ob =>
-    let old := ob.flags
-    let s1 := setObj s o (fun ob => { ob with flags := f })
-    match ob.det, ob.crit with
-    | some d, some c =>
-      if !c.trackFlags then s1
-      else if d.triggered then s1
-      else fireMonitor s1 o d (old != f)
-    | _, _ => s1
+    applyChange s o (fun x => { x with flags := f })
+      (match ob.det, ob.crit with
+       | some d, some c => some (flagsChange ob c d f)
+       | _, _ => none)
 
 def writeInc (s : State) (o : Nat) (v : Int) : State :=
   match findObj s o with
   | none => s
   | some ob =>
-    let old := ob.inc
-    let s1 := setObj s o (fun ob => { ob with inc := v })
-    match ob.det, ob.crit with
-    | some d, some c =>
-      if !c.trackInc then s1
-      else if d.triggered then s1
-      else fireMonitor s1 o d (old != v)
-    | _, _ => s1
+    applyChange s o (fun x => { x with inc := v })
+      (match ob.det, ob.crit with
+       | some d, some c => some (incChange ob c d v)
+       | _, _ => none)
 
 /-! ## sending notifications, deferred functions -/
 
@@ -318,9 +338,8 @@ def writeInc (s : State) (o : Nat) (v : Int) : State :=
     detection object afterwards and the requests handed to the application.
     `only = some sid` is the `subscription` argument. -/
 def sendNotifications (now : Nat) (ob : Obj) (d : Det) (only : Option Nat) : Det × List Out :=
-  let incr := match ob.crit with | some c => c.incr | none => false
   -- COVIncrementCriteria: when sending out notifications, keep the current value
-  let d1 := if incr then { d with prev := some ob.pv } else d
+  let d1 := if ob.incr then { d with prev := some ob.pv } else d
   if d.subs.isEmpty then (d1, [])
   else match only with
     | none => (d1, d.subs.map (notifyOf now ob))
@@ -369,8 +388,8 @@ def run (s : State) : State × List Out :=
 /-! ## time -/
 
 inductive TaskRef
-  | expiry (sid : Nat)        -- Subscription.process_task
-  | periodic (gen : Nat)      -- the RecurringFunctionTask of a pulse converter detection
+  | expiry (obj sid : Nat)        -- Subscription.process_task of that subscription object
+  | periodic (obj gen : Nat)      -- the RecurringFunctionTask of a pulse converter detection
 deriving Repr, DecidableEq
 
 structure Task where
@@ -379,12 +398,17 @@ structure Task where
   ref : TaskRef
 deriving Repr, DecidableEq
 
-def detTasks (d : Det) : List Task :=
-  d.subs.filterMap (fun c => c.due.map (fun tq => { t := tq.1, q := tq.2, ref := .expiry c.sid })) ++
-  (match d.ptask with | some (t, q) => [{ t := t, q := q, ref := .periodic d.gen }] | none => [])
+def subTask (o : Nat) (c : Sub) : Option Task :=
+  match c.due with
+  | some (t, q) => some { t := t, q := q, ref := .expiry o c.sid }
+  | none => none
+
+def detTasks (o : Nat) (d : Det) : List Task :=
+  d.subs.filterMap (subTask o) ++
+  (match d.ptask with | some (t, q) => [{ t := t, q := q, ref := .periodic o d.gen }] | none => [])
 
 def objTasks (ob : Obj) : List Task :=
-  match ob.det with | some d => detTasks d | none => []
+  match ob.det with | some d => detTasks ob.id d | none => []
 
 /-- everything the task manager holds for this service -/
 def armedTasks (s : State) : List Task := s.objs.flatMap objTasks
@@ -416,27 +440,30 @@ def advance (s : State) (dt : Nat) : State :=
 /-- process one task that `get_next_task` popped -/
 def fireTask (s : State) (k : Task) : State × List Out :=
   match k.ref with
-  | .expiry sid =>
+  | .expiry o sid =>
     -- Subscription.process_task → cancel_subscription → ChangeOfValueServices.cancel_subscription
-    ({ s with objs := s.objs.map (fun ob =>
-        match ob.det with
-        | none => ob
-        | some d =>
-          if d.subs.any (fun c => c.sid == sid) then
-            let subs := removeSid d.subs sid
-            { ob with det := if subs.isEmpty then none else some { d with subs := subs } }
-          else ob) }, [])
-  | .periodic g =>
-    -- send_cov_notifications(), then TaskManager.process_task re-installs the recurring task
-    let step := s.objs.map (fun ob =>
+    match findObj s o with
+    | none => (s, [])
+    | some ob =>
       match ob.det with
-      | none => (ob, [])
+      | none => (s, [])
       | some d =>
-        if d.gen == g && d.ptask == some (k.t, k.q) then
+        let subs := removeSid d.subs sid
+        let det := if subs.isEmpty then none else some { d with subs := subs }
+        (setObj s o (fun ob => { ob with det := det }), [])
+  | .periodic o g =>
+    -- send_cov_notifications(), then TaskManager.process_task re-installs the recurring task
+    match findObj s o with
+    | none => (s, [])
+    | some ob =>
+      match ob.det with
+      | none => (s, [])
+      | some d =>
+        if d.gen != g then (s, [])
+        else
           let (d1, outs) := sendNotifications s.now ob d none
-          ({ ob with det := some { d1 with ptask := some (nextPeriodic s.now ob.period, s.seq) } }, outs)
-        else (ob, []))
-    ({ s with objs := step.map (·.1), seq := s.seq + 1 }, step.flatMap (·.2))
+          let d2 := { d1 with ptask := some (nextPeriodic s.now ob.period, s.seq) }
+          ({ setObj s o (fun ob => { ob with det := some d2 }) with seq := s.seq + 1 }, outs)
 
 def fireAll (s : State) : List Task → State × List Out
   | [] => (s, [])
